@@ -37,6 +37,7 @@ type ClientOpts struct {
 	CheckStatusMs   int
 	RefreshMs       int
 	ObjQueueMax     int32
+	KeepAliveMs     int
 }
 
 // NewClient creates a fresh application + communicator inside the bubble.
@@ -69,6 +70,9 @@ func NewClient(o ClientOpts, opts ...tars.Option) *tars.Communicator {
 	}
 	if o.ObjQueueMax > 0 {
 		cc.ObjQueueMax = o.ObjQueueMax
+	}
+	if o.KeepAliveMs > 0 {
+		cc.KeepAliveInterval = o.KeepAliveMs
 	}
 	return tars.NewCommunicator(opts...)
 }
